@@ -13,10 +13,11 @@ CONSTANTS Names = {"n1", "n2", "n3", "n4", "n5", "n6"}
           Depths = {}
           MaxNow = 1000000
           MaxSeq = 1000000
+          Procs = {"p1", "p2", "p3"}
           Devs = @DEVS@
 INVARIANTS TChainResult TRecursionIff TReadYourPublish TMinNonZeroTTL TCacheCoherent DsRoutingAgree
-           ExplicitSeqMustIncrease PublishStores CacheBounded DevReport
-PROPERTIES TSeqMonotone TSeqIncrementsOnChange TSeqStepsByOne
+           ExplicitSeqMustIncrease PublishStores CacheBounded LockDiscipline ReadIsCurrent ConcOutcome DevReport
+PROPERTIES TSeqMonotone TSeqIncrementsOnChange TSeqStepsByOne TDsSeqMonotone TDsSeqIncrementsOnChange TDsSeqStepsByOne
 CONSTRAINT TraceConstraint
 POSTCONDITION TracePost
 CHECK_DEADLOCK FALSE
